@@ -196,6 +196,201 @@ def _lower_bounds_of_newsz(e):
     return [], None
 
 
+def _last_events(f):
+    """the final event of every path into the exit block"""
+    lasts = []
+    stack = [b_ for b_ in f.cfg.blocks.values() if f.cfg.exit in b_.succ]
+    seen_b = set()
+    while stack:
+        b_ = stack.pop()
+        if b_.id in seen_b:
+            continue
+        seen_b.add(b_.id)
+        if b_.ev:
+            lasts.append(b_.ev[-1])
+        else:
+            stack += [f.cfg.blocks[q] for q in b_.pred]
+    return lasts
+
+
+def _sbuf_append(ctx, prog, fname):
+    """sbuf_chr / sbuf_mem: on every path the bytes go to s + s_n, s_n + written + 1 <= s_sz
+    holds at the write (after a growth: <= the requested size), an unallocated buffer never
+    reaches the write without growing, and s_n ends up advanced by the written length.
+    Decided over the function's paths with substitution, so the spelling of the guard, of the
+    index and of the advance is free."""
+    from ..bounds import path_states
+    from ..lin import feasible
+    from ..util import resolve_local
+    f = prog.func(fname, file="sbuf.c")
+    pn = f.params[0]["name"]
+    K_SN, K_SZ = "%s->s_n" % pn, "%s->s_sz" % pn
+    sn0, sz0 = Lin({K_SN: 1}), Lin({K_SZ: 1})
+    exts = list(f.calls("sbuf_extend"))
+    if not exts:
+        ctx.violation(fname, "capacity check", "no call of sbuf_extend")
+        return
+    if len(exts) > 1:
+        ctx.inconclusive(fname, "capacity check", "more than one sbuf_extend call")
+        return
+    ext = exts[0]
+
+    def is_s(e):
+        e = strip_casts(e)
+        return e is not None and e["k"] == "member" and e["field"] == "s" and key(e["base"]) == pn
+
+    # the write: (event to stand at, index expression, written length expression or None = 1)
+    writes = []
+    if fname == "sbuf_chr":
+        for n, lv, op, rhs in stores(f.body):
+            if op != "=":
+                continue
+            idx = None
+            if lv["k"] == "sub" and is_s(lv["base"]):
+                idx = strip_casts(lv["idx"])
+            elif lv["k"] == "un" and lv["op"] == "*":
+                e_ = strip_casts(lv["e"])
+                if e_["k"] == "bin" and e_["op"] == "+" and is_s(e_["l"]):
+                    idx = strip_casts(e_["r"])
+            if idx is None:
+                continue
+            if idx["k"] == "un" and idx["op"] == "post++":
+                writes.append((idx["id"], idx["e"], None, n))
+            elif not _impure_expr(idx):
+                writes.append((n["id"], idx, None, n))
+    else:
+        for c in f.calls(("memcpy", "memmove")):
+            d = strip_casts(resolve_local(f, c["args"][0]))
+            idx = None
+            if d["k"] == "bin" and d["op"] == "+" and is_s(d["l"]):
+                idx = strip_casts(d["r"])
+            elif d["k"] == "un" and d["op"] == "&" and strip_casts(d["e"])["k"] == "sub" \
+                    and is_s(strip_casts(d["e"])["base"]):
+                idx = strip_casts(strip_casts(d["e"])["idx"])
+            if idx is not None and not _impure_expr(idx):
+                writes.append((c["id"], idx, c["args"][2], c))
+    if len(writes) != 1:
+        ctx.inconclusive(fname, "write position", "the store of the text into s[...] was not recognised "
+                         "(%d candidates)" % len(writes))
+        return
+    tgt, idx_e, len_e, wnode = writes[0]
+    # what sbuf_extend is asked for, judged in the state at the call
+    lows_e, align = _lower_bounds_exprs(ext["args"][1])
+    if not lows_e:
+        ctx.inconclusive(fname, "growth size", "unrecognised size expression %s" % key(ext["args"][1]), f.loc(ext))
+        return
+    at_ext = {}
+    for subst, hyps, items in path_states(f, ext["id"]):
+        lows = [linearize(l, subst) for l in lows_e]
+        if any(l is None for l in lows):
+            ctx.inconclusive(fname, "growth size", "size expression not linear", f.loc(ext))
+            return
+        at_ext[tuple(x for x in items if x[0] != "blk")] = lows
+    n_paths = 0
+    bad = []
+    S = Lin({"?newsz": 1})
+    for subst, hyps, items in path_states(f, tgt):
+        if "__havoc__" in subst:
+            ctx.inconclusive(fname, "capacity check", "loop on the way to the write")
+            return
+        n_paths += 1
+        idx = linearize(idx_e, subst)
+        W = Lin(k=1) if len_e is None else linearize(strip_casts(len_e), subst)
+        sn = subst.get(K_SN) or sn0
+        if idx is None or W is None:
+            ctx.inconclusive(fname, "write position", "index or length not linear", f.loc(wnode))
+            return
+        grown = any(x[0] == "ev" and x[1] == ext["id"] for x in items)
+        base = [W, sn0]                               # written length >= 0, s_n >= 0
+        if prove_le(idx, sn, base + hyps) != PROVEN or prove_le(sn, idx, base + hyps) != PROVEN:
+            bad.append(("write position", "the text is stored at s[%r], not at s[s_n]" % idx))
+            continue
+        for cname, hy in (("allocated", base + [sz0 - sn0 - Lin(k=1)]),
+                          ("fresh", base + [sn0, sn0.scale(-1), sz0, sz0.scale(-1)])):
+            if not feasible(hy + hyps):
+                continue
+            if not grown:
+                if cname == "fresh":
+                    bad.append(("unallocated buffer is extended first",
+                                "with s == NULL (s_n = s_sz = 0) the write can be reached without "
+                                "sbuf_extend: it goes through a null pointer"))
+                elif prove_le(idx + W + Lin(k=1), sz0, hy + hyps) != PROVEN:
+                    bad.append(("guard leaves room for text and terminator",
+                                "when sbuf_extend is skipped, s_n + %r + 1 <= s_sz does not follow: "
+                                "sbuf_buf() would write the terminator past the allocation" % W))
+            else:
+                # the state at the call is this path's prefix
+                pre = []
+                for x in items:
+                    if x[0] == "blk":
+                        continue
+                    if x[0] == "ev" and x[1] == ext["id"]:
+                        break
+                    pre.append(x)
+                lows = at_ext.get(tuple(pre))
+                if lows is None:
+                    ctx.inconclusive(fname, "growth size", "state at the sbuf_extend call not found")
+                    return
+                hy2 = hy + hyps + [S - l for l in lows]
+                if align and any(prove_le(Lin(k=1), l, hy + hyps) == PROVEN for l in lows):
+                    hy2.append(S - Lin(k=align))          # ALIGN(x, a) >= a for x >= 1
+                if prove_le(idx + W + Lin(k=1), S, hy2) != PROVEN:
+                    bad.append(("growth leaves room for text and terminator",
+                                "(%s buffer) after extending to %s, s_n + %r + 1 <= new size does "
+                                "not follow" % (cname, key(ext["args"][1])[:60], W)))
+    if n_paths == 0:
+        ctx.inconclusive(fname, "capacity check", "no path to the write")
+        return
+    seen = set()
+    for c_, d_ in bad:
+        if (c_, d_) not in seen:
+            seen.add((c_, d_))
+            ctx.violation(fname, c_, d_, f.loc(wnode))
+    if not bad:
+        ctx.ok(fname, "s_n + written + 1 <= s_sz at the write on all %d paths (allocated and fresh "
+               "buffers, with and without growth), written at s + s_n" % n_paths, loc=f.loc(wnode))
+    # s_n advanced by exactly the written length on every path to the exit
+    n_e = 0
+    worst = None
+    for last in _last_events(f):
+        for subst, hyps, items in path_states(f, last, inclusive=True):
+            n_e += 1
+            W = Lin(k=1) if len_e is None else Lin({f.params[2]["name"]: 1})
+            end = subst.get(K_SN) or sn0
+            if prove_le(end, sn0 + W, hyps) != PROVEN or prove_le(sn0 + W, end, hyps) != PROVEN:
+                worst = end
+    if n_e == 0:
+        ctx.inconclusive(fname, "advance", "no path to the end")
+    elif worst is not None:
+        ctx.violation(fname, "advance of s_n", "s_n ends as %r, not s_n + written length" % worst)
+    else:
+        ctx.ok(fname, "s_n advanced by the written length on all %d paths" % n_e)
+
+
+def _impure_expr(e):
+    from ..lin import _impure
+    return _impure(e)
+
+
+def _lower_bounds_exprs(e):
+    """expression nodes the size expression is >= to (ALIGN(MAX(a, b), k) >= a, >= b)."""
+    e = strip_casts(e)
+    if cval(e) is not None:
+        return [e], cval(e)
+    if e["k"] == "bin" and e["op"] == "&":
+        l = strip_casts(e["l"])
+        if l["k"] == "bin" and l["op"] == "-":
+            l2 = strip_casts(l["l"])
+            if l2["k"] == "bin" and l2["op"] == "+":
+                x = strip_casts(l2["l"])
+                a = cval(l2["r"])
+                if x["k"] == "cond":
+                    return [x["t"], x["f"]], a
+                return [x], a
+    return [], None
+
+
+
 def rule_B4(ctx):
     ctx.begin("B4", floor=4, what="string-buffer mutators keep one spare byte")
     prog = ctx.prog
@@ -205,95 +400,8 @@ def rule_B4(ctx):
     for f, n, field, elem, op, rhs in field_stores(prog, "sbuf"):
         if f.file != "sbuf.c":
             ctx.violation(f.name, "sbuf fields private to sbuf.c", "%s writes sbuf.%s" % (f.name, field), f.loc(n))
-    SN, SZ = "sbuf->s_n", "sbuf->s_sz"
-
-    def norm(f):
-        p = f.params[0]["name"]
-        return {p: "sbuf"}
-
     for fname in ("sbuf_chr", "sbuf_mem"):
-        f = prog.func(fname, file="sbuf.c")
-        ren = norm(f)
-        ext = list(f.calls("sbuf_extend"))
-        if not ext:
-            ctx.violation(fname, "capacity check", "no call of sbuf_extend")
-            continue
-        ext = ext[0]
-        guard = None
-        for c, t in _facts(f, ext):
-            guard = (c, t)
-        if guard is None:
-            ctx.violation(fname, "capacity check", "sbuf_extend is not guarded")
-            continue
-        lows, align = _lower_bounds_of_newsz(ext["args"][1])
-        if not lows:
-            ctx.inconclusive(fname, "growth size", "unrecognised size expression %s" % key(ext["args"][1]), f.loc(ext))
-            continue
-        lows = [linearize_ren(l, ren) for l in lows]
-        # the write
-        if fname == "sbuf_chr":
-            W = Lin(k=1)
-        else:
-            W = Lin({f.params[2]["name"]: 1})
-        sn, sz = Lin({SN: 1}), Lin({SZ: 1})
-        gcons_t = [_ren(c, ren) for c in cmp_constraints(guard[0], guard[1], ren=ren)]
-        gcons_f = [_ren(c, ren) for c in cmp_constraints(guard[0], not guard[1], ren=ren)]
-        base = [W, sn]                                   # len >= 0, s_n >= 0
-        cases = {"allocated": base + [sz - sn - Lin(k=1)],
-                 "fresh": base + [sn, sn.scale(-1), sz, sz.scale(-1)]}
-        okall = True
-        for cname, hy in cases.items():
-            # guard false: current size must do
-            from ..lin import feasible
-            if feasible(hy + gcons_f):
-                if cname == "fresh":
-                    ctx.violation(fname, "unallocated buffer is extended first",
-                                  "with s == NULL (s_n = s_sz = 0) the guard %s can be false and "
-                                  "the write goes through a null pointer" % key(guard[0]), f.loc(ext))
-                    okall = False
-                else:
-                    v = prove_le(sn + W + Lin(k=1), sz, hy + gcons_f)
-                    if v != PROVEN:
-                        ctx.violation(fname, "guard leaves room for text and terminator",
-                                      "when %s is false, s_n + %r + 1 <= s_sz does not follow (%s): "
-                                      "sbuf_buf() would write the terminator past the allocation" % (
-                                          key(guard[0]), W, v), f.loc(ext))
-                        okall = False
-            # guard true: new size S' >= each lower bound (and >= align when a lower bound >= 1)
-            S = Lin({"newsz": 1})
-            hy2 = hy + gcons_t + [S - l for l in lows]
-            if align and any(prove_le(Lin(k=1), l, hy + gcons_t) == PROVEN for l in lows):
-                hy2.append(S - Lin(k=align))      # ALIGN(x, a) >= a for x >= 1
-            v = prove_le(sn + W + Lin(k=1), S, hy2)
-            if v != PROVEN:
-                ctx.violation(fname, "growth leaves room for text and terminator",
-                              "(%s buffer) after extending to %s, s_n + %r + 1 <= new size does not "
-                              "follow (%s)" % (cname, key(ext["args"][1])[:60], W, v), f.loc(ext))
-                okall = False
-        # the write itself targets s + s_n with the stated length, then s_n grows by it
-        if okall:
-            ctx.ok(fname, "guard/growth keep s_n + written + 1 <= s_sz (allocated and fresh buffers)",
-                   loc=f.loc(ext))
-        wr_ok = False
-        if fname == "sbuf_mem":
-            from ..util import resolve_local
-            for c in f.calls("memcpy"):
-                d = key(resolve_local(f, c["args"][0]), ren)
-                if d in ("(sbuf->s+sbuf->s_n)", "(&sbuf->s[sbuf->s_n])") and \
-                        key(resolve_local(f, c["args"][2])) == f.params[2]["name"]:
-                    wr_ok = True
-            adv = [n for n, lv, op, rhs in stores(f.body) if lv_field(lv) and lv_field(lv)[1] == "s_n"
-                   and op == "+=" and key(strip_casts(rhs)) == f.params[2]["name"]]
-            wr_ok = wr_ok and bool(adv)
-        else:
-            for n, lv, op, rhs in stores(f.body):
-                if lv["k"] == "sub" and key(lv, ren).startswith("sbuf->s[") and "s_n" in key(lv["idx"]):
-                    wr_ok = True
-        if wr_ok:
-            ctx.ok(fname, "writes at s + s_n and advances s_n by the written length")
-        else:
-            ctx.inconclusive(fname, "write position", "store of the text at s + s_n / advance of s_n not recognised")
-        # the extension dominates the write
+        _sbuf_append(ctx, prog, fname)
     # sbuf_buf: terminator only after allocation
     f = prog.func("sbuf_buf", file="sbuf.c")
     ext = list(f.calls("sbuf_extend"))
@@ -393,6 +501,148 @@ def _ren(l, ren):
 # B5: ex parse gate
 
 
+def _position_tested(g, d, idxvars):
+    """some comparison in the function mentions the output pointer or its index"""
+    for n in g.walk():
+        if n["k"] == "bin" and n["op"] in ("<", "<=", ">", ">=", "!=", "=="):
+            for side in (n["l"], n["r"]):
+                ss = strip_casts(side)
+                if ss["k"] == "ref" and (ss["name"] == d or ss["name"] in idxvars):
+                    return True
+                if ss["k"] == "bin" and ss["op"] in ("-", "+") and any(
+                        r_["name"] == d or r_["name"] in idxvars for r_ in refs(ss)):
+                    return True
+    return False
+
+
+def copier_balance(g, dpos, spos):
+    """Longest-path balance (advances of the output position minus advances of the source
+    pointer) at every store through parameter dpos.  -> ("ok", n_stores) | ("bad", text, node)
+    | ("unknown", text, node) | ("none",)"""
+    d, s = g.params[dpos]["name"], g.params[spos]["name"]
+    cfg = g.cfg
+    # index variables of d[...] stores
+    idxvars = set()
+    store_pos = {}           # store node id -> 1 when its own lvalue holds the advance
+    unknown = None
+    for n, lv, op, rhs in stores(g.body):
+        if op == "init":
+            continue
+        base = None
+        own = 0
+        if lv["k"] == "un" and lv["op"] == "*":
+            t = strip_casts(lv["e"])
+            if t["k"] == "ref":
+                base = t["name"]
+            elif t["k"] == "un" and t["op"] == "post++" and t["e"]["k"] == "ref":
+                base, own = t["e"]["name"], 1
+            elif any(r_["name"] == d for r_ in refs(t)):
+                unknown = unknown or ("store `%s` through the destination not understood" % key(n)[:50], n)
+                continue
+        elif lv["k"] == "sub" and strip_casts(lv["base"])["k"] == "ref":
+            base = strip_casts(lv["base"])["name"]
+            if base == d:
+                i = strip_casts(lv["idx"])
+                if i["k"] == "ref" and i.get("cat") == "local":
+                    idxvars.add(i["name"])
+                elif i["k"] == "un" and i["op"] == "post++" and i["e"]["k"] == "ref":
+                    idxvars.add(i["e"]["name"])
+                    own = 1
+                elif cval(i) == 0:
+                    pass
+                else:
+                    unknown = unknown or ("store `%s` at a computed index" % key(n)[:50], n)
+                    continue
+        if base == d:
+            store_pos[n["id"]] = own
+    if not store_pos and not unknown:
+        return ("none",)
+    # the destination handed to another function, or aliased
+    for c in g.calls():
+        if any(r_["name"] == d for a in c["args"] for r_ in refs(a)):
+            unknown = unknown or ("destination passed to %s" % (c.get("fn") or "a callee"), c)
+    for n, lv, op, rhs in stores(g.body):
+        if rhs is not None and lv["k"] in ("ref", "var") and lv.get("name") != d:
+            r = strip_casts(rhs)
+            if r["k"] == "ref" and r["name"] in (d,) and any(
+                    lv2["k"] == "ref" and lv2["name"] == lv["name"] and op2 != "init" and n2["id"] != n["id"]
+                    for n2, lv2, op2, r2 in stores(g.body)):
+                unknown = unknown or ("%s is a moving alias of the destination" % lv["name"], n)
+    weight = {}
+    for n, lv, op, rhs in stores(g.body):
+        if lv["k"] != "ref":
+            continue
+        nm = lv["name"]
+        if nm not in idxvars and nm not in (d, s):
+            continue
+        sign = 1 if nm != s else -1
+        if op in ("post++", "pre++"):
+            weight[n["id"]] = sign
+        elif op in ("post--", "pre--"):
+            weight[n["id"]] = -sign
+        elif op in ("+=", "-=") and cval(rhs) is not None:
+            weight[n["id"]] = sign * cval(rhs) * (1 if op == "+=" else -1)
+        elif op == "=" and nm in idxvars and cval(rhs) == 0 and cfg.pos(n) and \
+                all(cfg.dominates(n, g.nodes[sid]) for sid in store_pos):
+            weight[n["id"]] = 0
+        else:
+            unknown = unknown or ("`%s` moves a position in a way that is not a step" % key(n)[:50], n)
+    for v_ in g.walk():
+        if v_["k"] == "var" and v_["name"] in idxvars and "init" in v_ and cval(v_["init"]) != 0:
+            unknown = unknown or ("index %s does not start at 0" % v_["name"], v_)
+    NEG = -10 ** 9
+    blocks = cfg.blocks
+    bw = {b: sum(weight.get(e, 0) for e in blocks[b].ev) for b in blocks}
+    din = {b: NEG for b in blocks}
+    din[cfg.entry] = 0
+    changed = True
+    rounds = 0
+    while changed and rounds <= len(blocks) + 2:
+        changed = False
+        rounds += 1
+        for b in blocks:
+            if din[b] == NEG:
+                continue
+            out_ = din[b] + bw[b]
+            for q in blocks[b].succ:
+                if q is not None and q in din and out_ > din[q]:
+                    din[q] = out_
+                    changed = True
+    if changed:
+        # a loop with a positive net
+        for h, body in cfg.loops().items():
+            for b in body:
+                for e in blocks[b].ev:
+                    if e in store_pos:
+                        if unknown:
+                            return ("unknown", unknown[0], unknown[1])
+                        if _position_tested(g, d, idxvars):
+                            return ("unknown", "a loop writes more than it reads, but the output position "
+                                    "is also compared with a limit: not decided", g.nodes[e])
+                        return ("bad", "a loop advances the output position more often than it consumes "
+                                "source bytes: the output is not bounded by the input length", g.nodes[e])
+        return ("unknown", "a loop with a positive net position change", None)
+    worst = None
+    for b in blocks:
+        if din[b] == NEG:
+            continue
+        bal = din[b]
+        for e in blocks[b].ev:
+            bal += weight.get(e, 0)
+            if e in store_pos and bal - store_pos[e] > 0:
+                worst = (bal - store_pos[e], g.nodes[e])
+    if unknown:
+        return ("unknown", unknown[0], unknown[1])
+    if worst and _position_tested(g, d, idxvars):
+        return ("unknown", "the output can run ahead of the input, but the output position is also "
+                "compared with a limit: not decided", worst[1])
+    if worst:
+        return ("bad", "on some path the store `%s` is %d byte(s) ahead of the source bytes consumed: "
+                "the output can be longer than the input" % (key(worst[1])[:40], worst[0]), worst[1])
+    return ("ok", len(store_pos))
+
+
+
 def rule_B5(ctx):
     ctx.begin("B5", floor=5, what="ex command-line gate and its copiers")
     prog = ctx.prog
@@ -438,45 +688,21 @@ def rule_B5(ctx):
     # the gated string is the one that is split
     if key(strip_casts(c["l"])["args"][0]) != f.params[0]["name"]:
         ctx.violation("ex_exec", "length gate on the command", "the gate measures %s" % key(c["l"]), f.loc(c))
-    # copiers write one byte per source byte consumed (plus the terminator)
-    for cn, dpos in (("ex_loc", 1), ("ex_arg", 1), ("ex_plus", 1), ("cutword", 1)):
+    # copiers write one byte per source byte consumed (plus the terminator): at every store
+    # through the destination, (destination advances) - (source advances) <= 0 on the
+    # longest path, and no loop has a positive net
+    for cn, dpos in (("ex_loc", 1), ("ex_cmd", 1), ("ex_arg", 1), ("ex_plus", 1), ("cutword", 1)):
         g = prog.func(cn, file="ex.c")
-        d, s = g.params[dpos]["name"], g.params[0]["name"]
-        bad = None
-        n_st = 0
-        for n, lv, op, rhs in stores(g.body):
-            if lv["k"] == "un" and lv["op"] == "*":
-                tgt = strip_casts(lv["e"])
-                base = tgt["e"]["name"] if tgt["k"] == "un" and tgt["e"]["k"] == "ref" else (
-                    tgt["name"] if tgt["k"] == "ref" else None)
-                if base != d:
-                    continue
-                n_st += 1
-                r = strip_casts(rhs)
-                if key(lv) == "(*(post++%s))" % d and key(r) == "(*(post++%s))" % s:
-                    continue
-                if key(lv) == "(*%s)" % d and cval(r) == 0:
-                    continue
-                bad = n
-        if bad is not None:
-            ctx.violation(cn, "copier writes one byte per byte read",
-                          "`%s` can write more than it consumes from the source" % key(bad), g.loc(bad))
-        elif n_st:
-            ctx.ok(cn, "every store is *dst++ = *src++ or the terminator (output <= input length)")
-        else:
+        res = copier_balance(g, dpos, 0)
+        if res[0] == "ok":
+            ctx.ok(cn, "at each of its %d stores through %s the output position <= source bytes consumed "
+                   "(longest path over the CFG, no loop with a positive net)" % (res[1], g.params[dpos]["name"]))
+        elif res[0] == "bad":
+            ctx.violation(cn, "copier writes one byte per byte read", res[1], g.loc(res[2]) if res[2] else "")
+        elif res[0] == "none":
             ctx.broken("%s: no stores through the destination" % cn)
-    # ex_cmd: bounded by a constant
-    g = prog.func("ex_cmd", file="ex.c")
-    lim = None
-    for n in g.walk():
-        if n["k"] == "bin" and n["op"] == "<" and cval(strip_casts(n["r"]).get("r") if strip_casts(n["r"])["k"] == "bin" else None) is not None:
-            r = strip_casts(n["r"])
-            if r["op"] == "+" and key(n["l"]) == g.params[1]["name"]:
-                lim = cval(r["r"])
-    if lim is not None and lim + 2 <= K:
-        ctx.ok("ex_cmd", "command name limited to %d letters + 1 + terminator <= %d" % (lim, K))
-    else:
-        ctx.violation("ex_cmd", "command name bounded", "limit %s does not fit %d" % (lim, K))
+        else:
+            ctx.inconclusive(cn, "copier writes one byte per byte read", res[1], g.loc(res[2]) if res[2] else "")
     # other destinations of the copiers are at least as large as their bounded source
     for cn in ("ex_plus", "cutword"):
         for h in prog.funcs.values():
@@ -820,26 +1046,92 @@ def rule_I1(ctx):
                 ("hist_u <= hist_n", f("hist_u"), f("hist_n")),
                 ("hist_n <= hist_sz", f("hist_n"), f("hist_sz"))]
 
-    for fname in ("lbuf_replace", "lbuf_opt", "lbuf_undo", "lbuf_redo", "lbuf_saved"):
-        f = prog.func(fname, file="lbuf.c")
-        cfg = f.cfg
-        p = f.params[0]["name"]
-        writes = [n for n, lv, op, rhs in stores(f.body)
-                  if lv_field(lv) and lv_field(lv)[0] == "lbuf" and lv_field(lv)[1] in FIELDS
-                  and not lv_field(lv)[2] and lv["k"] == "member"]
-        if not writes:
-            ctx.broken("%s no longer writes the guarded fields" % fname)
+    # the writers: every function that stores one of the fields through a struct lbuf pointer
+    writers = {}
+    for f_ in prog.funcs.values():
+        ws = [n for n, lv, op, rhs in stores(f_.body)
+              if lv_field(lv) and lv_field(lv)[0] == "lbuf" and lv_field(lv)[1] in FIELDS
+              and not lv_field(lv)[2] and lv["k"] == "member"]
+        if not ws:
             continue
-        init = [b - a for g, a, b in inv(p, lambda k_: Lin({k_: 1}))]
-        if fname == "lbuf_replace":
+        bases = {key(lv["base"]) for n, lv, op, rhs in stores(f_.body)
+                 if lv["k"] == "member" and lv_field(lv) and lv_field(lv)[0] == "lbuf" and lv_field(lv)[1] in FIELDS}
+        pp = [q["name"] for q in f_.params if q["name"] in bases]
+        if len(bases) != 1 or len(pp) != 1:
+            ctx.inconclusive(f_.name, "history/line-table invariant",
+                             "fields stored through %s: not a single pointer parameter" % sorted(bases))
+            continue
+        writers[f_.qname] = (f_, pp[0], ws)
+    if len(writers) < 3:
+        ctx.broken("only %d functions store the line-table / history fields" % len(writers))
+
+    def init_for(g, gp):
+        init_ = [b - a for gn, a, b in inv(gp, lambda k_: Lin({k_: 1}))]
+        if g.name == "lbuf_replace" and len(g.params) >= 4:
             # contract of the splice primitive: n_del lines exist (pos + n_del <= ln_n, pos >= 0);
             # established by the clamps in lbuf_edit (checked below) and by log replay in
             # undo/redo (history argument, not decided)
-            pos_, ndel_ = f.params[2]["name"], f.params[3]["name"]
-            init += [Lin({"%s->ln_n" % p: 1}) - Lin({pos_: 1}) - Lin({ndel_: 1}), Lin({pos_: 1}), Lin({ndel_: 1})]
+            pos_, ndel_ = g.params[2]["name"], g.params[3]["name"]
+            init_ += [Lin({"%s->ln_n" % gp: 1}) - Lin({pos_: 1}) - Lin({ndel_: 1}), Lin({pos_: 1}), Lin({ndel_: 1})]
+        return init_
 
-        def header_hyps(subst):
-            return [b - a for g, a, b in inv(p, lambda k_: subst.get(k_) or Lin({k_: 1}))]
+    def hh_for(gp):
+        return lambda subst: [b - a for gn, a, b in inv(gp, lambda k_: subst.get(k_) or Lin({k_: 1}))]
+
+    _kw = {}
+
+    def stored_fields(g, seen=None):
+        """fields a writer (or the writers it calls) stores"""
+        seen = seen or set()
+        if g.qname in seen:
+            return set()
+        seen.add(g.qname)
+        out_ = set()
+        if g.qname in writers:
+            for n_ in writers[g.qname][2]:
+                par_ = n_["l"] if n_["k"] == "bin" else n_["e"]
+                out_.add(par_["field"])
+        for c_ in g.calls():
+            h_ = prog.resolve(g, c_["fn"]) if c_.get("fn") else None
+            if h_ is not None and h_.file == g.file:
+                out_ |= stored_fields(h_, seen)
+        return out_
+
+    def kw_for(f):
+        if f.qname in _kw:
+            return _kw[f.qname]
+        p = writers[f.qname][1]
+        header_hyps = hh_for(p)
+
+        def inline(call, f=f, p=p):
+            g = prog.resolve(f, call["fn"]) if call.get("fn") else None
+            if g is None or g.qname not in writers or g is f:
+                return None
+            return (g, kw_for(g))
+
+        def call_writes(call, f=f, p=p):
+            fn = call.get("fn")
+            g = prog.resolve(f, fn) if fn else None
+            if g is None or g.file != f.file or g is f:
+                return []
+            if not any(key(strip_casts(a)) == p for a in call["args"]):
+                return []
+            return sorted("%s->%s" % (p, fl) for fl in stored_fields(g))
+
+        def after_call(call, subst, header_hyps=header_hyps):
+            # every writer re-establishes the invariant (its own obligation here)
+            return header_hyps(subst)
+        _kw[f.qname] = dict(init_hyps=init_for(f, p), header_hyps=header_hyps, assume_fields=FIELDS,
+                            call_writes=call_writes, inline=inline, after_call=after_call)
+        return _kw[f.qname]
+
+    for qn in sorted(writers):
+        f, p, writes = writers[qn]
+        fname = f.name
+        cfg = f.cfg
+        init = init_for(f, p)
+        header_hyps = hh_for(p)
+
         # obligation points: every return, and the end of every loop body that contains a write
         targets = [(r, "return") for r in cfg.return_nodes()]
         if not targets or cfg.exit in [s_ for b in cfg.blocks.values() for s_ in b.succ if not b.ev or
@@ -870,26 +1162,22 @@ def rule_I1(ctx):
                         targets.append((n_, "end of loop body"))
                 else:
                     latches += [q for q in cfg.blocks[b].pred if q in body and q != h]
-        def call_writes(call, f=f, p=p):
-            fn = call.get("fn")
-            g = prog.resolve(f, fn) if fn else None
-            if g is None or g.name in ("lbuf_replace", "lbuf_opt") or g.file != "lbuf.c":
-                return []
-            # which argument carries the struct?
-            out = []
-            for i_, a in enumerate(call["args"]):
-                if key(strip_casts(a)) == p and i_ < len(g.params):
-                    gp = g.params[i_]["name"]
-                    for n_, lv_, op_, rhs_ in stores(g.body):
-                        lf_ = lv_field(lv_)
-                        if lf_ and lf_[0] == "lbuf" and lf_[1] in FIELDS and not lf_[2]:
-                            out.append("%s->%s" % (p, lf_[1]))
-            return sorted(set(out))
+        # the invariant is what the other writers assume on entry: it holds at each call of one
+        for c_ in f.calls():
+            g_ = prog.resolve(f, c_["fn"]) if c_.get("fn") else None
+            if g_ is not None and g_ is not f and (g_.qname in writers or (
+                    g_.file == f.file and stored_fields(g_))):
+                if any(key(strip_casts(a_)) == p for a_ in c_["args"]):
+                    targets.append((c_, "call of %s" % g_.name))
 
+        kw = kw_for(f)
         for tgt, where in targets:
-            sts = path_states(f, tgt["id"], init_hyps=init, header_hyps=header_hyps,
-                              assume_fields=FIELDS, base_case=(where == "loop entry"),
-                              call_writes=call_writes)
+            try:
+                sts = path_states(f, tgt["id"], base_case=(where == "loop entry"), **kw)
+            except OverflowError:
+                ctx.inconclusive(fname, "history/line-table invariant at the %s" % where,
+                                 "too many paths", f.loc(tgt))
+                continue
             bad = None
             undecided = None
             for subst, hyps, items in sts:
@@ -908,7 +1196,9 @@ def rule_I1(ctx):
                     flat = [h_ for h_ in hyps if not isinstance(h_, tuple)]
                     v = prove_le(a, b, hyps + nonneg_atoms(flat + [a, b]))
                     if v != PROVEN:
-                        if "__havoc__" in subst:
+                        gl = b - a
+                        if "__havoc__" in subst or ("__callhavoc__" in subst and any(
+                                "@c" in at_ for at_ in gl.c)):
                             undecided = (gname, v, items)
                         else:
                             bad = (gname, v, items)
@@ -942,25 +1232,42 @@ def rule_I1(ctx):
                           ed.loc(c))
     # lbuf_replace: strictly one spare slot after the splice (the contract B3 relies on)
     f = prog.func("lbuf_replace", file="lbuf.c")
-    p = f.params[0]["name"]
+    if f.qname not in writers:
+        ctx.broken("lbuf_replace no longer stores ln_n")
+        return
+    p = writers[f.qname][1]
+    n_st = 0
     for n, lv, op, rhs in stores(f.body):
-        if lv_field(lv) and lv_field(lv)[1] == "ln_n" and lv["k"] == "member":
-            v, hy = prove_index(f, n, Lin({"%s->ln_n" % p: 1}) + linearize(strip_casts(rhs)) + Lin(k=1),
-                                Lin({"%s->ln_sz" % p: 1}))
-            helper = [c for c in f.calls() if c.get("fn") and prog.resolve(f, c["fn"]) is not None and
-                      prog.resolve(f, c["fn"]).file == "lbuf.c" and any(
-                          lv_field(lv2) and lv_field(lv2)[1] == "ln_sz"
-                          for n2, lv2, op2, r2 in stores(prog.resolve(f, c["fn"]).body))]
-            if v == PROVEN:
-                ctx.ok("lbuf_replace", "after the splice ln_n < ln_sz (growth loop exit dominates the store)", loc=f.loc(n))
-            elif helper:
-                ctx.inconclusive("lbuf_replace", "line table keeps a spare slot",
-                                 "the growth moved into %s(): its post-condition is not summarised" % helper[0]["fn"],
-                                 f.loc(n))
-            else:
-                ctx.violation("lbuf_replace", "line table keeps a spare slot",
-                              "the store `%s` is not dominated by a growth test that leaves ln_n < ln_sz (%s)" % (
-                                  key(n), v), f.loc(n))
+        if not (lv_field(lv) and lv_field(lv)[1] == "ln_n" and lv["k"] == "member"):
+            continue
+        n_st += 1
+        try:
+            sts = path_states(f, n["id"], inclusive=True, **kw_for(f))
+        except OverflowError:
+            ctx.inconclusive("lbuf_replace", "line table keeps a spare slot", "too many paths", f.loc(n))
+            continue
+        bad = und = None
+        for subst, hyps, items in sts:
+            new_n = subst.get("%s->ln_n" % p) or Lin({"%s->ln_n" % p: 1})
+            sz = subst.get("%s->ln_sz" % p) or Lin({"%s->ln_sz" % p: 1})
+            v = prove_le(new_n + Lin(k=1), sz, hyps)
+            if v != PROVEN:
+                if "__havoc__" in subst or "__callhavoc__" in subst:
+                    und = v
+                else:
+                    bad = v
+        if bad:
+            ctx.violation("lbuf_replace", "line table keeps a spare slot",
+                          "after the store `%s`, ln_n < ln_sz does not follow from the growth before it "
+                          "(%s): the slot after the last line is outside ln[]" % (key(n), bad), f.loc(n))
+        elif und:
+            ctx.inconclusive("lbuf_replace", "line table keeps a spare slot",
+                             "depends on a helper that is not summarised", f.loc(n))
+        elif sts:
+            ctx.ok("lbuf_replace", "after the splice ln_n < ln_sz on all %d paths (growth exit condition)" % len(sts),
+                   loc=f.loc(n))
+    if not n_st:
+        ctx.broken("lbuf_replace: store to ln_n not found")
 
 
 def rule_P1(ctx):
